@@ -3,8 +3,16 @@
    All theorems quantify over every initial configuration (any number of hosts and sessions, finite or infinite
    reconnection schedule) and every event history of any length. *)
 From Coq Require Import ZArith List Bool Arith.
-From Verif Require Import HostState C25_proofs.
+From Verif Require Import HostState C25_proofs C25_notify_proofs.
 Import ListNotations.
+
+Definition note_eqb (a b : note) : bool :=
+  match a, b with
+  | NL k h, NL k' h' => (k =? k') && (h =? h') | NP k h, NP k' h' => (k =? k') && (h =? h')
+  | NAttempt h, NAttempt h' => h =? h' | _, _ => false end.
+Fixpoint notes_eqb (a b : list note) : bool :=
+  match a, b with [], [] => true | x :: a', y :: b' => note_eqb x y && notes_eqb a' b' | _, _ => false end.
+Definition step_out_is (r : st * list note) (l : list note) : bool := notes_eqb (snd r) l.
 
 (* A live reconnector = not cancelled and with a pending timer.  At all times a host has at most one, and it is the one
    registered on the host (Host._reconnection_handler). *)
@@ -38,6 +46,19 @@ Proof.
     rewrite (removed_fire_noop (set_out s []) k r o HJ' Hk); [reflexivity | simpl; rewrite Hh; exact Hp].
 Qed.
 Print Assumptions C25_removed_never_reconnected.
+
+(* Any step, from ANY state (reachable or not), that takes a host from "not up" (down or unknown) to "up" -- a successful
+   reconnection with no pool to create, the completion of the pool futures of on_up, or of on_add -- emits exactly one
+   listener notification (on_up or on_add) for that host.  lc h = number of NL 0 h / NL 2 h notes. *)
+Theorem C25_up_once_per_transition : forall s e h,
+  up (hosts s h) <> 1 -> up (hosts (fst (step s e)) h) = 1 -> lc h (snd (step s e)) = 1.
+Proof. exact marked_up_notified_once. Qed.
+Print Assumptions C25_up_once_per_transition.
+
+Example C25_nonvacuous_up : let s := run (init [1] 0 None) [EFail 0; ERun 0 OOk] in
+  up (hosts s 0) = 0 /\ step_out_is (step s (EReconnect 0 OOk)) [NAttempt 0; NP 0 0; NL 0 0] = true
+  /\ up (hosts (fst (step s (EReconnect 0 OOk))) 0) = 1.
+Proof. vm_compute. repeat split; auto. Qed.
 
 (* ---- "exactly one while the host is down" and "a host marked up has pools": full statements, refuted by witnesses that
    replay on the driver (open findings C25-3 / C25-4, see docs/C25.md) ---- *)
